@@ -53,6 +53,13 @@ N == Len(Items)
 Map(d) == meta.map[d + 1]
 Black(d) == meta.bl[d + 1]
 IsData(i) == Items[i].k = "cmd" /\ ~Black(srcDb[i])
+\* a MULTI or EXEC read while a configured-out database is selected is dropped with that database's traffic: the tool
+\* never learns that the transaction began (or ended), although other items of the group lie in a database that is replayed
+\* (known finding "bracket configured out"; the violation names such groups cause carry a suffix)
+ExecIdx(g) == LET S == {j \in g..N : Items[j].k = "exec"} IN IF S = {} THEN g ELSE CHOOSE j \in S : \A x \in S : j <= x
+Hidden(g) == g >= 1 /\ g <= N /\ Items[g].k = "multi" /\ (Black(srcDb[g]) \/ Black(srcDb[ExecIdx(g)]))
+HiddenBefore(i) == \E g \in 1..N : g <= i /\ Hidden(g)
+Tx(name, g) == IF Hidden(g) THEN name \o "_BracketConfiguredOut" ELSE name
 EndOf(i) == IF i = 0 THEN meta.start ELSE Items[i].e
 Boundaries == {meta.start} \cup {Items[i].e : i \in 1..N}
 IdxOfEnd(o) == IF o = meta.start /\ (\A i \in 1..N : Items[i].e # o) THEN 0
@@ -125,7 +132,7 @@ StateBad(st) ==
   IN (IF known /\ ix > st.ap THEN {"C02_CheckpointCoversUnapplied"} ELSE {})
      \cup (IF known /\ ix >= 1 /\ (\E d \in dbs : st.cpRun[d] /\ d # Map(srcDb[ix]) /\ ~Black(srcDb[ix]))
            THEN {"C02_ResumeDbWrong"} ELSE {})
-     \cup (IF known /\ ix >= 1 /\ meta.txn /\ inTxn[ix] THEN {"C09_ResumeInsideTransaction"} ELSE {})
+     \cup (IF known /\ ix >= 1 /\ meta.txn /\ inTxn[ix] THEN {Tx("C09_ResumeInsideTransaction", grp[ix])} ELSE {})
      \cup (IF mx >= 0 /\ (\E d \in dbs : ~st.cpRun[d]) THEN {"C07_PositionWithoutRunId"} ELSE {})
      \cup (IF mx < 0 THEN {"C07_GoodPositionLost"} ELSE {})
 
@@ -136,9 +143,9 @@ BlockBad(st, isExecBlock) ==
            whole(g) == \A j \in 1..N : (grp[j] = g /\ IsData(j)) => j \in st.blkItems
            execEnd(g) == LET S == {j \in g..N : Items[j].k = "exec"} IN
                          IF S = {} THEN -1 ELSE Items[CHOOSE j \in S : \A x \in S : j <= x].e
-       IN (IF \E g \in gs : ~whole(g) THEN {"C09_TransactionSplit"} ELSE {})
-          \cup (IF gs # {} /\ ~isExecBlock THEN {"C09_TransactionOutsideMulti"} ELSE {})
-          \cup (IF isExecBlock /\ \E g \in gs : execEnd(g) > st.blkCp THEN {"C09_BlockWithoutCoveringPosition"} ELSE {})
+       IN {Tx("C09_TransactionSplit", g) : g \in {x \in gs : ~whole(x)}}
+          \cup (IF ~isExecBlock THEN {Tx("C09_TransactionOutsideMulti", g) : g \in gs} ELSE {})
+          \cup (IF isExecBlock THEN {Tx("C09_BlockWithoutCoveringPosition", g) : g \in {x \in gs : execEnd(x) > st.blkCp}} ELSE {})
 
 Report(line, bad) == IF bad = {} THEN TRUE ELSE PrintT(<<"VIOL", meta.id, line, bad>>)
 
@@ -220,7 +227,7 @@ TraceResume ==
                 \cup (IF known /\ ix > apNow THEN {"C02_ResumeSkipsWrites"} ELSE {})
                 \cup (IF known /\ ix >= 1 /\ r.db # Map(srcDb[ix]) /\ ~Black(srcDb[ix]) THEN {"C02_ResumeDbWrong"} ELSE {})
                 \cup (IF meta.txn /\ r.off < MaxCpOf(cpOff) THEN {"C02_ResumeBeforeCommitted"} ELSE {})
-                \cup (IF known /\ ix >= 1 /\ meta.txn /\ inTxn[ix] THEN {"C09_ResumeInsideTransaction"} ELSE {})
+                \cup (IF known /\ ix >= 1 /\ meta.txn /\ inTxn[ix] THEN {Tx("C09_ResumeInsideTransaction", grp[ix])} ELSE {})
      IN /\ Report(l, bad)
         /\ expect' = IF known THEN NextData(ix) ELSE 0
         /\ resumeFloor' = IF known THEN r.off ELSE resumeFloor
@@ -231,7 +238,9 @@ TraceResume ==
 \* the harness has fed everything, drained the sender and seen it idle
 TraceQuiesce ==
   /\ IsEvent("Quiesce")
-  /\ Report(l, IF ap < N THEN (IF crashes = 0 THEN {"C01_LostAtQuiescence"} ELSE {"C02_LostAfterRestart"}) ELSE {})
+  \* (behind a transaction whose EXEC was dropped the sender waits for the end of the transaction for ever)
+  /\ Report(l, IF ap < N THEN {(IF crashes = 0 THEN "C01_LostAtQuiescence" ELSE "C02_LostAfterRestart")
+                               \o (IF meta.txn /\ HiddenBefore(ap + 1) THEN "_BracketConfiguredOut" ELSE "")} ELSE {})
   /\ UNCHANGED <<meta, srcDb, inTxn, grp, conns, applied, expect, ap, cpOff, cpRun, cpMt, lastCp, crashes, resumeFloor, nlog>>
 
 Next == TraceReset \/ TraceSeeded \/ TraceReq \/ TraceCrash \/ TraceResume \/ TraceQuiesce
